@@ -3,10 +3,10 @@
 use crate::error::{QueryError, Result};
 use crate::execution::{ExecutionConfig, SharedMemoryPool};
 use crate::physical::operators::{
-    run_subquery_plan, AggregateExpr, ExternalSortExec, FilterExec, HashAggregateExec,
-    HashJoinExec, LimitExec, MemoryTableExec, MorselAggregateExec, ProjectExec, SortExec,
-    SpillableHashAggregateExec, SpillableHashJoinExec, SubqueryExecutor, TableProvider, UnionExec,
-    VectorSearchExec,
+    evaluate_expr, run_subquery_plan, AggregateExpr, ExternalSortExec, FilterExec,
+    HashAggregateExec, HashJoinExec, LimitExec, MemoryTableExec, MorselAggregateExec, ProjectExec,
+    SortExec, SpillableHashAggregateExec, SpillableHashJoinExec, SubqueryExecutor, TableProvider,
+    UnionExec, VectorSearchExec,
 };
 use crate::physical::PhysicalOperator;
 use crate::planner::{BinaryOp, Expr, JoinType, LogicalPlan, PlanSchema};
@@ -1802,10 +1802,46 @@ impl PhysicalPlanner {
             }
 
             LogicalPlan::Values(node) => {
-                // Evaluate constant expressions and create a batch
+                // Every cell is a constant expression: evaluate it against the
+                // one-row, zero-column batch a table-less SELECT runs on, cast
+                // it to its column's type (an untyped NULL takes any type) and
+                // stack the cells into one batch of the plan's schema.
                 let schema = plan_schema_to_arrow(&node.schema);
-                // For now, return empty - proper implementation needs expression evaluation
-                let exec = MemoryTableExec::new("values", schema, vec![], None);
+                let one_row = arrow::record_batch::RecordBatch::try_new_with_options(
+                    Arc::new(Schema::empty()),
+                    vec![],
+                    &arrow::record_batch::RecordBatchOptions::new().with_row_count(Some(1usize)),
+                )?;
+                // A cell that does not fit its column is an error, not a NULL.
+                let strict = arrow::compute::CastOptions {
+                    safe: false,
+                    ..Default::default()
+                };
+                let mut columns = Vec::with_capacity(schema.fields().len());
+                for (i, field) in schema.fields().iter().enumerate() {
+                    let mut cells = Vec::with_capacity(node.values.len());
+                    for row in &node.values {
+                        let cell = row.get(i).ok_or_else(|| {
+                            QueryError::Plan("VALUES lists must all be the same length".into())
+                        })?;
+                        let value = evaluate_expr(&one_row, cell)?;
+                        cells.push(arrow::compute::cast_with_options(
+                            &value,
+                            field.data_type(),
+                            &strict,
+                        )?);
+                    }
+                    let cells: Vec<&dyn arrow::array::Array> =
+                        cells.iter().map(|c| c.as_ref()).collect();
+                    columns.push(arrow::compute::concat(&cells)?);
+                }
+                let batch = arrow::record_batch::RecordBatch::try_new_with_options(
+                    schema.clone(),
+                    columns,
+                    &arrow::record_batch::RecordBatchOptions::new()
+                        .with_row_count(Some(node.values.len())),
+                )?;
+                let exec = MemoryTableExec::new("values", schema, vec![batch], None);
                 Ok(Arc::new(exec))
             }
 
